@@ -143,7 +143,8 @@ def run(chk, orch):
     chk.assumptions = ["between shared events an actor touches only its own folder, so the interleaving of shared events is the schedule",
                        "mtimes are logical (change iff the file was modified); sqlite commits and gffutils.create_db steps are "
                        "atomic events", "lost cache updates are not violations (the property does not promise completeness)",
-                       "the reference .fai exists before the actors start (index creation by pyfaidx is not part of the cache)"]
+                       "the reference .fai exists before the actors start, except in the family fresh_reference, where the index "
+                       "file is a shared path (open/truncate, write, read, rename are events)"]
     rounds = 0
     while True:
         rounds += 1
@@ -164,6 +165,24 @@ def run(chk, orch):
                     orch.submit(0, "scenarios:pipeline", common.job_args(wls[act["wl"]]["spec"], o, common.GOLDEN_CELL),
                                 tag=("g", gk))
                     gold_keys[gk] = None
+        # first use of a reference: 2-4 runs start together on a reference that has no .fai yet; the index next to the shared
+        # reference is a shared path in these sessions (own seeded stream, so that the other families keep their draws)
+        import random as _random
+        frng = _random.Random("c20/fresh_reference/%d/%d" % (chk.seed, rounds))
+        for k in range(n, n + (24 if quick else 64)):
+            w0 = dict(TINY, seed=frng.randrange(1 << 20))
+            nn = frng.choice([2, 3, 4])
+            steps = [{"run": [{"wl": 0, "opts": {}, "out": "ABCD"[i]} for i in range(nn)]}]
+            sched = {"policy": frng.choice(POLICIES), "seed": frng.randrange(1 << 20), "pct_d": frng.choice([1, 1, 2, 3]),
+                     "horizon": frng.choice([30, 60, 120])}
+            wls = [{"spec": w0}]
+            a = {"workloads": wls, "steps": steps, "sched": sched, "cold_fai": True}
+            orch.submit(0, "scenarios:cache_session", a, tag=("s", k), timeout=120)
+            sessions[k] = (wls, steps, sched, "fresh_reference", a)
+            gk = json.dumps([w0, {}], sort_keys=True)
+            if gk not in gold_keys:
+                orch.submit(0, "scenarios:pipeline", common.job_args(w0, {}, common.GOLDEN_CELL), tag=("g", gk))
+                gold_keys[gk] = None
         # second system: the index / BED / alignment caches of the aligner path, driven function by function with stub artefacts
         nk = 64 if quick else 256
         cfn = {}
